@@ -29,7 +29,7 @@ func TestVerifFilter(t *testing.T) {
 	t0 := time.Now()
 	prop := os.Getenv("VERIF_PROP")
 	res := vNew(prop, "overlay test in package main of apps/rtcmfilter: the real HandleMessages on mixed streams (valid frames of decodable and other types, corrupted frames, "+
-		"junk) through chunked readers, for the four display/record switch combinations, with writer latencies 0/1/5 ms; at the instant HandleMessages returns: output bytes == concatenation of the valid "+
+		"junk) through chunked readers (a third of them returning their last bytes together with the end-of-file error), for the four display/record switch combinations, with writer latencies 0/1/5 ms; at the instant HandleMessages returns: output bytes == concatenation of the valid "+
 		"frames == typed messages of sequential framing, record file == output, readable log has one entry per message; non-trivial = at least one valid frame; distinct = distinct stream")
 	r := rand.New(rand.NewSource(res.Seed))
 	start := time.UnixMilli(1683979200000).UTC()
@@ -53,6 +53,12 @@ func TestVerifFilter(t *testing.T) {
 			delay = []time.Duration{time.Millisecond, 5 * time.Millisecond, 20 * time.Millisecond}[r.Intn(3)]
 		}
 		chunks := []int{1 + r.Intn(5), 1 + r.Intn(64), 4096}
+		switch i % 6 {
+		case 3:
+			chunks = append(chunks, 0) // the last bytes arrive together with end of file
+		case 5:
+			chunks = []int{8192, 0} // the whole input in one read, together with end of file
+		}
 		if rp != nil {
 			bs = vUnhx(rp["stream"])
 			frames, stray = nil, true
